@@ -23,6 +23,8 @@ RULE = ("Inputs: rendered valid documents; grammar-aware mutations of them (dele
 ASSUMPTIONS = [
     "nesting depth of generated inputs stays far below the recursion limit (out of scope by the property statement)",
     "a hang inside libyaml can only be seen by the per-run watchdog (reported as harness error, never as violation)",
+    "besides the call budget, one call may use at most 20 s of process CPU time (ITIMER_VIRTUAL, independent of machine load); inputs are "
+    "below 64 KB and normally need milliseconds, so exceeding it is reported as a hang",
 ]
 
 
@@ -35,6 +37,35 @@ def loaders():
 
 
 LEVELS = ("scan", "parse", "compose_all")
+CPU_LIMIT_S = 20
+
+
+class Stuck(BaseException):
+    pass
+
+
+class cpu_limit:
+    """Interrupts the enclosed call after `seconds` of *CPU time of this process* (ITIMER_VIRTUAL: machine load does not count).
+    Work that needs four orders of magnitude more CPU than any other input of its size is what 'hangs' means for a
+    library call; the call budget above cannot see time spent inside one C call (e.g. a backtracking regular expression)."""
+
+    def __init__(self, seconds):
+        self.seconds = seconds
+
+    def _handler(self, signum, frame):
+        raise Stuck()
+
+    def __enter__(self):
+        import signal
+        self.old = signal.signal(signal.SIGVTALRM, self._handler)
+        signal.setitimer(signal.ITIMER_VIRTUAL, self.seconds)
+        return self
+
+    def __exit__(self, *a):
+        import signal
+        signal.setitimer(signal.ITIMER_VIRTUAL, 0)
+        signal.signal(signal.SIGVTALRM, self.old)
+        return False
 
 
 def check_marks(exc, data, backend, lineidx_cache):
@@ -82,14 +113,19 @@ def run_one(data, as_stream):
             if as_stream:
                 src = io.StringIO(data) if isinstance(data, str) else io.BytesIO(data)
             try:
-                if bname == "py":
-                    with CallBudget(20000 + 3000 * n):
+                with cpu_limit(CPU_LIMIT_S):
+                    if bname == "py":
+                        with CallBudget(20000 + 3000 * n):
+                            for _ in fn(src, Loader=L):
+                                pass
+                    else:
                         for _ in fn(src, Loader=L):
                             pass
-                else:
-                    for _ in fn(src, Loader=L):
-                        pass
                 outcomes.append("ok")
+            except Stuck:
+                failures.append(Failure("hang:cpu-time:%s:%s" % (bname, level),
+                                        "more than %d s of CPU time for %d input units (typical: milliseconds)" % (CPU_LIMIT_S, n)))
+                outcomes.append("hang")
             except BudgetExceeded as e:
                 failures.append(Failure("hang:%s:%s" % (bname, level), "more than %s calls for %d input units" % (e, n)))
                 outcomes.append("hang")
